@@ -2,8 +2,11 @@ SPEC = dict(
     props_file="Props/C21.v",
     level="proof",
     observers=[dict(cmd="obs_replica", imports=["Model.Replica"], case_type="Replica.case", check="Replica.check_case",
-                    n={"quick": 500, "thorough": 15000}, shard=100)],
-    rule="SendToReplicas predicates (reads only / all / none / by key hash / absent), ReplicaOnly, node selectors returning -1 … 9 "
+                    n={"quick": 600, "thorough": 15000}, shard=100)],
+    rule="every entry point that routes by replica opt-in (Do, DoMulti, DoCache, DoMultiCache, DoStream, DoMultiStream, Receive, Dedicated) "
+         "in cluster, standalone and sentinel mode, with batches of 1-4 GET / SET / ECHO / PUBLISH in which the command that does not opt in "
+         "is keyed or has no key slot and sits first, in the middle or last, two-slot stream batches (panic), predicates by command name / key "
+         "hash / keyless-only; plus: SendToReplicas predicates (reads only / all / none / by key hash / absent), ReplicaOnly, node selectors returning -1 … 9 "
          "(inside and outside the candidate list), EnableReplicaAZInfo on/off, 0-3 replicas, single commands and batches of 1-4 GET/SET, in "
          "standalone-with-replicas (incl. EnableRedirect without replicas), sentinel (1-2 replicas) and cluster mode (1-3 shards with 0-2 "
          "replicas each, CLUSTER SLOTS and CLUSTER SHARDS, the four replica configurations); the node that receives each command and the "
@@ -14,14 +17,17 @@ SPEC = dict(
 )
 
 MANIFEST = dict(
-    text="Proof: in standalone and sentinel mode a replica destination implies that SendToReplicas is configured and true for the command — for "
+    text="Proof (all entry points: Do, DoMulti, DoCache, DoMultiCache, DoStream, DoMultiStream, Receive, Dedicated): in standalone and sentinel mode a replica destination implies that SendToReplicas is configured and true for the command — for "
          "batches for every command — or that the client is ReplicaOnly; in cluster mode a command that did not opt in (client not ReplicaOnly) "
          "goes to the primary of the shard listing its slot, an opted-in one to a node of that shard, ReplicaOnly to a replica when the shard "
-         "has one; a ReplicaSelector / ReadNodeSelector / standalone selector result outside the candidate list falls back to the primary and "
+         "has one; a cluster DoMultiStream batch stays on the write table as soon as one command of it — keyed or without key slot, anywhere in the "
+         "batch — does not opt in; a ReplicaSelector / ReadNodeSelector / standalone selector result outside the candidate list falls back to the primary and "
          "one inside is honoured; over all predicates, selector results, random draws, topologies and map orders. Tied to standalone.go / "
          "sentinel.go / cluster.go on every run: generated configurations through the real clients against fake nodes, destination compared "
          "with the model, direct oracle on the roles logged by the nodes.",
-    note="the model also exposes that SendToReplicas without any replica (possible with EnableRedirect) panics in standalone.pick "
+    note="known finding cluster.go:_pick / keyless-command-any-node: a command without key slot sent through Do / DoStream / Receive / Dedicated "
+         "on a cluster client goes to an arbitrary connection, replicas included (map-order dependent, so the KNOWN-FINDING line appears in a "
+         "fraction of the runs); the model also exposes that SendToReplicas without any replica (possible with EnableRedirect) panics in standalone.pick "
          "(rand.IntN(0)) — outside this property's statement, reported in docs/route.md. Coq kernel + VM, Go toolchain, fake nodes, python driver trusted.",
     technique="Coq proofs (case analysis over the routing functions and the slot-table closed form) + differential run of model vs implementation",
     category="proof",
